@@ -228,3 +228,31 @@ Theorem C08_fully_shard_rank_is_group_step_iteration :
          = ComposeMasks.model_run_l Op c (map (fun p => (fst p, local_grads lay (restrict ls (snd p)))) hs) 0%Z (ComposeMasks.mk_blocks vals sts).
 Proof. exact @ComposeFullyShard.fully_shard_rank_is_group_step_iteration. Qed.
 Print Assumptions C08_fully_shard_rank_is_group_step_iteration.
+
+(* HybridShard: every rank (i, s) of every R x S mesh - any group size dividing R, any assignment of each column's blocks
+   to group ranks, every history (starving ranks included), full-precision communication - holds the block values that
+   iterating the documented group step produces on the non-empty local tensors of shard coordinate s *)
+Theorem C08_hybrid_ranks_follow_update_rule :
+  forall F (Op : Scalar.ops F) (c : Optimizer.cfg (F:=F)) (nblk : list Z -> nat) (R S gs nextra : nat) (gshapes : list (list Z))
+         (owner : nat -> nat -> nat) (nbytes : nat -> nat)
+         (hs : list (Optimizer.hints (F:=F) * (nat -> pgrads (OptimizerMasks.ograd (F:=F)))))
+         (v0 : nat -> list (OptimizerMasks.ovalue (F:=F))) (st0 : nat -> list (OptimizerMasks.ostate (F:=F)))
+         (b0 : nat -> list (OptimizerMasks.ovalue (F:=F))),
+    let H := map snd hs in
+    let hlsS := fun s => map (local_shape S s) gshapes in
+    let lay := fun s => all_local_layout nextra (map nblk (locals_of (hlsS s))) in
+    0 < S -> 0 < gs -> R = R / gs * gs ->
+    (forall s b, s < S -> b < hnb nblk S gshapes s -> owner s b < gs) ->
+    (forall s, s < S -> length (v0 s) = hnb nblk S gshapes s /\ length (st0 s) = hnb nblk S gshapes s) ->
+    (forall s, s < S -> Forall (fs_wf_input nblk (hlsS s)) (map (fun pgs => pgs s) H)) ->
+    (forall s, s < S -> Forall (fun p => ComposeMasks.uniform_l (fst p) (local_grads (lay s) (restrict (hlsS s) (snd p s)))) hs) ->
+    exists cl,
+      hy_run R S (hP nblk [] (ComposeFullyShard.ost_empty (F:=F)) (OptimizerMasks.opt_bstep Op c) (fun x => x) (fun _ q => q) R S gs gshapes owner nbytes)
+             (map (hentry_of nblk S gshapes) H) (hy_init R S v0 st0 b0) = Some cl /\
+      forall i s, i < R -> s < S ->
+        vals (cget cl (hrank S i s))
+        = map (Optimizer.b_w (F:=F))
+              (snd (ComposeMasks.model_run_l Op c (map (fun p => (fst p, local_grads (lay s) (restrict (hlsS s) (snd p s)))) hs) 0%Z
+                                             (ComposeMasks.mk_blocks (v0 s) (st0 s)))).
+Proof. exact @ComposeFullyShard.hybrid_ranks_follow_update_rule. Qed.
+Print Assumptions C08_hybrid_ranks_follow_update_rule.
